@@ -106,6 +106,55 @@ fn merge_job(job: &Value) -> Value {
   json!({"item_rank": item_rank, "all": ranks(&heap, &all), "orders": seqs, "trees": trees, "texts_equal": texts_equal})
 }
 
+/// {"kind":"opt-fresh","sources":{..}}: after optimize_sources the heap's next temporary name must be fresh with respect
+/// to every `_tN` that occurs in the optimized program (the invariant that makes later lowering stages hand out unused
+/// names, whatever the scheduling of the parallel passes was). Deterministic: it does not need an unlucky schedule.
+fn opt_fresh_job(job: &Value) -> Value {
+  let mut heap = Heap::new();
+  let texts = crate::front::load_sources(&mut heap, job);
+  let mut error_set = ErrorSet::new();
+  let mut parsed = HashMap::new();
+  for (m, text) in &texts {
+    parsed.insert(*m, samlang_parser::parse_source_module_from_text(text, *m, &mut heap, &mut error_set));
+  }
+  let checked = samlang_checker::type_check_sources(&parsed, &mut error_set).0;
+  if error_set.has_errors() {
+    return json!({"rejected": true});
+  }
+  let unoptimized = samlang_compiler::compile_sources_to_mir(&mut heap, &checked);
+  let configuration = samlang_optimization::OptimizationConfiguration {
+    does_perform_local_value_numbering: true,
+    does_perform_common_sub_expression_elimination: true,
+    does_perform_loop_optimization: true,
+    does_perform_inlining: true,
+    does_perform_scalar_replacement: true,
+  };
+  let optimized = samlang_optimization::optimize_sources(&mut heap, unoptimized, &configuration);
+  let text = optimized.debug_print(&heap);
+  let mut max_id: i64 = -1;
+  let b = text.as_bytes();
+  let mut i = 0;
+  while i + 2 < b.len() {
+    let boundary = i == 0 || !(b[i - 1].is_ascii_alphanumeric() || b[i - 1] == b'_');
+    if boundary && b[i] == b'_' && b[i + 1] == b't' && b[i + 2].is_ascii_digit() {
+      let mut j = i + 2;
+      let mut n: i64 = 0;
+      while j < b.len() && b[j].is_ascii_digit() {
+        n = n * 10 + (b[j] - b'0') as i64;
+        j += 1;
+      }
+      if j == b.len() || !(b[j].is_ascii_alphanumeric() || b[j] == b'_') {
+        max_id = max_id.max(n);
+      }
+      i = j;
+    } else {
+      i += 1;
+    }
+  }
+  let next = heap.alloc_temp_str().as_str(&heap).to_string();
+  json!({"max_temp_in_program": max_id, "next_heap_temp": next})
+}
+
 fn names_job(job: &Value) -> Value {
   let start = job["start"].as_u64().unwrap() as u32;
   let threads = job["threads"].as_u64().unwrap() as usize;
@@ -150,6 +199,7 @@ pub fn main(_args: &[String]) {
     let job: Value = serde_json::from_str(&line).unwrap();
     let r = catch_unwind(AssertUnwindSafe(|| match job["kind"].as_str().unwrap() {
       "merge" => merge_job(&job),
+      "opt-fresh" => opt_fresh_job(&job),
       _ => names_job(&job),
     }));
     match r {
